@@ -102,6 +102,8 @@ def run_cases(check: str, tier: str, seed: int, cases: list[dict], out) -> None:
             res = mod.run(case, ctx)
             rec.update(res)
         except monitors.StepBudgetExceeded as e:
+            ctx.steps.budget = None  # the abort has arrived: stop raising
+            ctx.steps.cpu_budget = None
             rec["viol"] = [
                 {
                     "what": "step-budget-exceeded",
@@ -126,6 +128,7 @@ def run_cases(check: str, tier: str, seed: int, cases: list[dict], out) -> None:
         if ctx.steps is not None:
             rec["steps"] = ctx.steps.steps
             ctx.steps.budget = None
+            ctx.steps.cpu_budget = None
         if use_mem:
             rec["peak"] = ctx.mem.peak()
         # audit side channel (always on)
